@@ -91,7 +91,7 @@ StringDictionaryRPFC::StringDictionaryRPFC(IteratorDictString *it,
     {
       // Extracting the internal strings for Re-Pair compression
 
-      if ((ptrpdict + (size_t)(bucketsize * maxlength)) > reservedInts)
+      while ((ptrpdict + (size_t)(bucketsize * maxlength)) > reservedInts)
         reservedInts = Reallocate(&rpdict, reservedInts);
 
       // Stores the last position with 0 to avoid confusions with 0 values
